@@ -27,42 +27,23 @@ open PyCraft PyCraft.Trackers PyCraft.Enums PyCraft.TrackLive PyCraft.Gen PyCraf
 abbrev posClass : String :=
   "minecraft.networking.packets.clientbound.play.player_position_and_look_packet.PlayerPositionAndLookPacket"
 
-/-- A list of class attributes gives the five flag constants the model hard-codes. -/
-def PosFlagsTied (attrs : List (String × Int)) : Prop := posFlagTable attrs = some modelPosFlags
-
-instance (attrs : List (String × Int)) : Decidable (PosFlagsTied attrs) := by
-  unfold PosFlagsTied; infer_instance
-
 /-- The constants `FLAG_REL_X … FLAG_REL_PITCH` of `Model/Trackers.lean` ARE the live class
 attributes: as `apply` reads them (`getattr`), as they stand in the class's `__dict__`, and as they
 stand in the older table `Gen.flagEnums`. -/
 theorem posflags_live :
     PosFlagsTied posFlagAttrs ∧
     (∃ e ∈ flagLive, e.1 = posClass ∧ PosFlagsTied e.2.1) ∧
-    (∃ ms, (posClass, ms) ∈ flagEnums ∧
-      lookupName "FLAG_REL_X" ms = some FLAG_REL_X ∧ lookupName "FLAG_REL_Y" ms = some FLAG_REL_Y ∧
-      lookupName "FLAG_REL_Z" ms = some FLAG_REL_Z ∧
-      lookupName "FLAG_REL_YAW" ms = some FLAG_REL_YAW ∧
-      lookupName "FLAG_REL_PITCH" ms = some FLAG_REL_PITCH) := by
-  refine ⟨by decide +kernel, ⟨(posClass, flagMembers_0, flagNames_0), by decide +kernel, rfl,
-    by decide +kernel⟩, ⟨_, List.mem_cons_self .., by decide +kernel⟩⟩
+    (∃ e ∈ flagEnums, e.1 = posClass ∧
+      lookupName "FLAG_REL_X" e.2 = some FLAG_REL_X ∧ lookupName "FLAG_REL_Y" e.2 = some FLAG_REL_Y ∧
+      lookupName "FLAG_REL_Z" e.2 = some FLAG_REL_Z ∧
+      lookupName "FLAG_REL_YAW" e.2 = some FLAG_REL_YAW ∧
+      lookupName "FLAG_REL_PITCH" e.2 = some FLAG_REL_PITCH) := by
+  decide +kernel
 
 /-- A table as the generator would write it after swapping `FLAG_REL_YAW = 0x10` /
 `FLAG_REL_PITCH = 0x08` in the Python: `posflags_live` is false for it. -/
 example : ¬ PosFlagsTied [("FLAG_REL_X", 1), ("FLAG_REL_Y", 2), ("FLAG_REL_Z", 4),
     ("FLAG_REL_YAW", 16), ("FLAG_REL_PITCH", 8)] := by decide +kernel
-
-/-- The model reproduces what the live `apply` did to the probe target for one row of the table. -/
-def PosRowAgrees (F : PosFlagTable) (r : Int × List Int) : Prop :=
-  ∃ pkt cur, posOfInts posProbePkt = some pkt ∧ posOfInts posProbeCur = some cur ∧
-    posOfInts r.2 = some (applyPosLookWith F r.1 pkt cur)
-
-instance (F : PosFlagTable) (r : Int × List Int) : Decidable (PosRowAgrees F r) :=
-  decidable_of_iff
-    ((posOfInts posProbePkt).bind (fun pkt => (posOfInts posProbeCur).map fun cur =>
-      decide (posOfInts r.2 = some (applyPosLookWith F r.1 pkt cur))) = some true) (by
-    unfold PosRowAgrees
-    cases posOfInts posProbePkt <;> cases posOfInts posProbeCur <;> simp)
 
 /-- The live `PlayerPositionAndLookPacket.apply` was run for EVERY signed flags byte −128 … 127 on
 the probe (current `(10, 20, 30, 350, 355)`, packet `(1, 2, 3, 20, −30)`: every coordinate tells
@@ -70,11 +51,11 @@ the probe (current `(10, 20, 30, 350, 355)`, packet `(1, 2, 3, 20, −30)`: ever
 signed-flags model over the flag table and `Trackers.applyPosLook` on the two's-complement byte. -/
 theorem position_apply_observed :
     posApplyLive.map Prod.fst = (List.range 256).map (fun (i : Nat) => (i : Int) - 128) ∧
-    (∀ r ∈ posApplyLive, PosRowAgrees modelPosFlags r) ∧
+    (∀ r ∈ posApplyLive, PosRowAgrees modelPosFlags posProbePkt posProbeCur r) ∧
     (∀ r ∈ posApplyLive, ∀ pkt cur, posOfInts posProbePkt = some pkt →
       posOfInts posProbeCur = some cur →
       posOfInts r.2 = some (applyPosLook (flagsOfByte r.1) pkt cur)) := by
-  have h2 : ∀ r ∈ posApplyLive, PosRowAgrees modelPosFlags r := by decide +kernel
+  have h2 : ∀ r ∈ posApplyLive, PosRowAgrees modelPosFlags posProbePkt posProbeCur r := by decide +kernel
   refine ⟨by decide +kernel, h2, ?_⟩
   intro r hr pkt cur hp hc
   obtain ⟨pkt', cur', hp', hc', h⟩ := h2 r hr
@@ -84,7 +65,7 @@ theorem position_apply_observed :
 
 /-- With YAW/PITCH swapped in the MODEL (equivalently: the Python swapped and the model left alone),
 some observed row disagrees. -/
-example : ¬ ∀ r ∈ posApplyLive, PosRowAgrees ⟨1, 2, 4, 16, 8⟩ r := by decide +kernel
+example : ¬ ∀ r ∈ posApplyLive, PosRowAgrees ⟨1, 2, 4, 16, 8⟩ posProbePkt posProbeCur r := by decide +kernel
 
 /-- `if self.flags & FLAG:` for a one-bit flag tests exactly binary digit `k` of the (possibly
 negative) flags value in two's complement — for every int, not only bytes. -/
@@ -169,14 +150,6 @@ theorem position_apply_bits (F : PosFlagTable) (hF : posFlagTable posFlagAttrs =
 
 /-! ## Flag names -/
 
-/-- Every row of a generated table carries exactly the names the int model prints. -/
-def NamesAgree (tbl : List (String × List (String × Int) × List (Option String))) (lo : Int)
-    (count : Nat) : Prop :=
-  ∀ e ∈ tbl, e.2.2 = namesFrom e.2.1 lo count
-
-instance (tbl : List (String × List (String × Int) × List (Option String))) (lo : Int) (count : Nat) :
-    Decidable (NamesAgree tbl lo count) := by unfold NamesAgree; infer_instance
-
 /-- The new table lists the same classes with the same members as `Gen.flagEnums`, and no class has
 a negative member — so the `v ≥ 0` filter of `extract.py` dropped nothing. -/
 theorem flagLive_matches_flagEnums :
@@ -214,16 +187,25 @@ of `Props/C20.lean` are about: for every class of `Gen.flagEnums` and every valu
 printed name is `nameFromValue`. -/
 theorem names_live_nat : ∀ e ∈ flagEnums, ∀ v : Nat, v < 256 →
     liveName flagLive nameLo e.1 (v : Int) = some (nameFromValue e.2 v) := by
-  decide +kernel
+  intro e he v hv
+  have hmem : (e.1, intMembers e.2) ∈ flagLive.map (fun e => (e.1, e.2.1)) := by
+    rw [flagLive_matches_flagEnums.2.2]; exact List.mem_map.2 ⟨e, he, rfl⟩
+  obtain ⟨row, hrow, heq⟩ := List.mem_map.1 hmem
+  have h1 : row.1 = e.1 := congrArg Prod.fst heq
+  have h2 : row.2.1 = intMembers e.2 := congrArg Prod.snd heq
+  have h := (names_live_at row hrow (v : Int) (by omega) (by omega)).1
+  rw [h1, h2, nameFromValueZ_cast] at h
+  exact h
 
 /-- The printed name of a flag value parses back to that value — stated about the strings the LIVE
 function returned: for every flag enum in the library and every value 0 … 255. -/
 theorem live_names_parse_back : ∀ e ∈ flagEnums, ∀ v : Nat, v < 256 → ∀ s,
     liveName flagLive nameLo e.1 (v : Int) = some (some s) → parseName e.2 s = some v := by
-  have hc : ∀ e ∈ flagEnums, checkEnum e.2 = true := by decide +kernel
+  have hc : ∀ e ∈ flagEnums, (e.2.map Prod.fst).Nodup ∧ ∀ p ∈ e.2, '|' ∉ p.1.toList := by
+    decide +kernel
   intro e he v hv s hs
   rw [names_live_nat e he v hv] at hs
-  exact checkEnum_sound e.2 (hc e he) v hv s (Option.some.inj hs)
+  exact nameFromValue_parses e.2 (hc e he).1 (hc e he).2 v s (Option.some.inj hs)
 
 /-- Negative values (the flags field of the position packet is a SIGNED byte): a class whose
 upper-case members are all non-negative names no negative value (the loop's `ret_value` stays
@@ -248,9 +230,10 @@ theorem int_model_extends_nat_model (members : List (String × Nat)) (value : Na
 
 /-! ### Refutations: one-token edits of `enum.py:40-44` -/
 
-/-- The variant machinery with all switches as in the code reproduces the live table (all 3 × 384
-entries) … -/
-example : variantTable .faithful flagLive nameLo nameCount = flagLive := by decide +kernel
+/-- The variant machinery with all switches as in the code reproduces the live table (here: its
+entries for −4 … 67) … -/
+example : variantTable .faithful flagLive (-4) 72 =
+    flagLive.map (fun e => (e.1, e.2.1, (e.2.2.drop 124).take 72)) := by decide +kernel
 
 /-- … and on the window of values 0 … 3 it agrees with the model, whereas the table written for
 `','.join(...)` instead of `'|'.join(...)` … -/
@@ -268,10 +251,13 @@ example : ¬ NamesAgree (variantTable { NameVariant.faithful with eqClause := fa
   decide +kernel
 
 /-- Small instances of the three, readable: -/
-example : nameFromValueZ flagMembers_0 3 = some "FLAG_REL_X|FLAG_REL_Y" ∧
-    nameFromValueV { NameVariant.faithful with sep := ',' } flagMembers_0 3 = some "FLAG_REL_X,FLAG_REL_Y" ∧
-    nameFromValueV { NameVariant.faithful with reversed := false } flagMembers_0 3 =
-      some "FLAG_REL_Y|FLAG_REL_X" := by decide +kernel
+example : nameFromValueZ [("FLAG_REL_X", 1), ("FLAG_REL_Y", 2), ("FLAG_REL_Z", 4)] 3 =
+      some "FLAG_REL_X|FLAG_REL_Y" ∧
+    nameFromValueV { NameVariant.faithful with sep := ',' }
+      [("FLAG_REL_X", 1), ("FLAG_REL_Y", 2), ("FLAG_REL_Z", 4)] 3 = some "FLAG_REL_X,FLAG_REL_Y" ∧
+    nameFromValueV { NameVariant.faithful with reversed := false }
+      [("FLAG_REL_X", 1), ("FLAG_REL_Y", 2), ("FLAG_REL_Z", 4)] 3 = some "FLAG_REL_Y|FLAG_REL_X" := by
+  decide +kernel
 example : nameFromValueZ [("SURVIVAL", 0), ("CREATIVE", 1)] 0 = some "SURVIVAL" ∧
     nameFromValueV { NameVariant.faithful with eqClause := false } [("SURVIVAL", 0), ("CREATIVE", 1)] 0 =
       some "0" := by decide +kernel
@@ -336,7 +322,7 @@ example : (histOfRows plistProbe).map (fun h =>
 section examples
 
 -- the live table really contains the position packet with five members and a printed name
-example : (posClass, flagMembers_0, flagNames_0) ∈ flagLive ∧ flagMembers_0.length = 5 ∧
+example : (∃ e ∈ flagLive, e.1 = posClass ∧ e.2.1.length = 5 ∧ e.2.2.length = 384) ∧
     liveName flagLive nameLo posClass 24 = some (some "FLAG_REL_YAW|FLAG_REL_PITCH") ∧
     liveName flagLive nameLo posClass (-1) = some none ∧
     liveName flagLive nameLo posClass 32 = some none := by decide +kernel
